@@ -285,4 +285,22 @@ example : rowOf Gen.nvRows "core.MeasBasisInstruction" =
 example : rowOf Gen.vanillaRows "core.BreakpointInstruction" =
     some ⟨"core.BreakpointInstruction", 100, "breakpoint", [.imm8, .imm8]⟩ := by decide +kernel
 
+/-! ### An instruction that was serialised once and is then modified in place -/
+
+/-- Encoding is a function of the current operand values: whatever an instruction held (and
+however often it was serialised) before, once slot `k` is assigned, in place, an operand it
+cannot represent, encoding raises. -/
+theorem encode_rejects_after_update (row : Row) (ops : List Operand) (k : Nat) (kind : FieldKind)
+    (o : Operand) (hk : row.shape[k]? = some kind) (hlen : k < ops.length) (hbad : BadOp kind o) :
+    encodeRow row (ops.set k o) = none :=
+  encode_rejects row (ops.set k o) k kind o hk (by simp [hlen]) hbad
+
+/-- the same for the metadata of a subroutine object: `sub.app_id = 70000` after `bytes(sub)` -/
+theorem encodeSub_rejects_after_update (T : Table) (s : Sub) (app : Nat) (h : 65535 < app) :
+    encodeSub T { s with app := app } = none :=
+  encodeSub_rejects T _ (Or.inr (Or.inl h))
+
+example : encodeRow ⟨"core.SetInstruction", 4, "set", [.reg, .int32]⟩
+    (([.reg ⟨0, 1⟩, .imm 5] : List Operand).set 1 (.imm 2147483648)) = none := by decide +kernel
+
 end NQ.C16
